@@ -92,3 +92,61 @@ Lemma prune_keeps_late_fork_refuted :
   last_out (run_from fixed (init0 true) (h_prune ++ [OGetSlot 7])) = Ok (RSlot (Some 3)) /\
   last_exp (spec_from (init0 true) (h_prune ++ [OGetSlot 7])) = EVal (RSlot None).
 Proof. vm_compute. split; reflexivity. Qed.
+
+(* C09: neither the current best child nor the candidate leads to a viable head, one is still chosen by weight:
+   the viable parent (2,1) ends with a non-viable best descendant and FindHead errors. (All other repairs applied.) *)
+Definition all_but_nonviable : fixes := mkFixes true true true true true true true false true true true true true true true.
+Definition h_nonviable : list op :=
+  [OBlock 1 2 1 1 0; OBlock 2 3 2 2 0; OBlock 2 4 2 2 0; OAtt 0 3 2; OAtt 1 3 2; OHead; OSlot 4 4 2 0;
+   OAtt 0 4 4; OAtt 1 4 4; OAtt 2 4 4; OUpdate 1 (1, 2) (0, 1) (Some [10; 10; 10]) None; OFindHead 2 1].
+Lemma bestchild_nonviable_refuted :
+  last_out (run_from all_but_nonviable (init0 false) h_nonviable) = Err /\
+  last_exp (spec_from (init0 false) h_nonviable) = EVal (RRef (2, 1)) /\
+  last_out (run_from fixed (init0 false) h_nonviable) = Ok (RRef (2, 1)).
+Proof. vm_compute. repeat split; reflexivity. Qed.
+
+(* C09: a vote for an empty slot after the block (the normal case) is refused by the snapshot's slot comparison *)
+Definition h_att_gap : list op := [OBlock 1 2 1 0 0; OSlot 2 2 0 0; OAtt 0 2 2].
+Lemma attestation_gap_slot_refuted :
+  last_out (run_from pinned (init0 false) h_att_gap) = Ok (RBool false) /\
+  last_exp (spec_from (init0 false) h_att_gap) = EVal (RBool true) /\
+  last_out (run_from fixed (init0 false) h_att_gap) = Ok (RBool true).
+Proof. vm_compute. repeat split; reflexivity. Qed.
+(* ... while a vote for a (root, slot) pair that does not exist is accepted *)
+Definition h_att_unknown : list op := [OBlock 1 2 3 0 0; OAtt 0 2 2].
+Lemma attestation_unknown_target_refuted :
+  last_out (run_from pinned (init0 false) h_att_unknown) = Ok (RBool true) /\
+  last_exp (spec_from (init0 false) h_att_unknown) = EVal (RBool false) /\
+  last_out (run_from fixed (init0 false) h_att_unknown) = Ok (RBool false).
+Proof. vm_compute. repeat split; reflexivity. Qed.
+
+(* C10: a prune at an empty-slot anchor (root 3, slot 4) with a later block 4@5 built on root 3: without the re-parenting
+   repair the block is cut off and the head stays on the empty-slot chain *)
+Definition all_but_reparent : fixes := mkFixes true true true true true true true true true true true true true true false.
+Definition h_gap_anchor : list op :=
+  [OBlock 1 2 1 0 0; OBlock 2 3 2 0 0; OSlot 3 4 0 0; OBlock 3 4 5 1 1; OBlock 4 5 6 1 1; OAtt 0 5 6; OHead;
+   OUpdate 5 (1, 3) (1, 3) (Some [10; 10; 10]) None; OHead].
+Lemma prune_gap_anchor_refuted :
+  last_out (run_from all_but_reparent (init0 false) h_gap_anchor) = Ok (RRef (3, 5)) /\
+  last_exp (spec_from (init0 false) h_gap_anchor) = EVal (RRef (5, 6)) /\
+  last_out (run_from fixed (init0 false) h_gap_anchor) = Ok (RRef (5, 6)).
+Proof. vm_compute. repeat split; reflexivity. Qed.
+
+(* the full statements (Step.refines) on concrete non-trivial histories: forks, votes, an update, prunes at a block and at an
+   empty-slot anchor, queries after them; and the one history shape on which the repaired code still fails *)
+Definition h_rich : list op :=
+  h_chain ++ [OBlock 2 7 3 0 0; OBlock 7 8 4 0 0; OAtt 0 6 5; OAtt 1 8 4; OHead; OChain 1 0; OInSub 2 8; OInSub 3 8;
+              OSearch 1 0 (Some 2) None; OCanonAt 1 3 true; OCanonAt 1 3 false; OClosest 2 2; OGetSlot 7].
+Lemma refines_examples :
+  refines sel_c11 true (init0 false) h_rich = true /\ refines sel_c09 true (init0 false) h_rich = true /\
+  refines sel_c10 true (init0 false) (h_chain ++ [OHead; OUpdate 6 (1, 5) (1, 5) (Some [10; 10; 10]) None; OHead; OChain 5 4; OGetSlot 2; OFin; OPin]) = true /\
+  refines sel_c10 true (init0 false) (h_gap_anchor ++ [OChain 3 4; OGetSlot 2; OBlock 3 9 6 1 1; OAtt 1 9 6; OAtt 2 9 6; OHead]) = true /\
+  refines sel_c09 true (init0 false) (h_gap_anchor ++ [OChain 3 4; OGetSlot 2; OBlock 3 9 6 1 1; OAtt 1 9 6; OAtt 2 9 6; OHead]) = true /\
+  refines sel_c10 true (init0 false) (h_chain ++ [OHead; OUpdate 6 (1, 5) (1, 5) (Some [10; 10; 10]) (Some 2); OHead; OGetSlot 1; OGetSlot 2]) = true.
+Proof. vm_compute. repeat split; reflexivity. Qed.
+Lemma late_fork_refutes_full :
+  refines sel_c11 true (init0 true) (h_prune ++ [OGetSlot 7]) = false /\
+  refines sel_c10 true (init0 false) h_prune = false /\
+  refines sel_c11 false (init0 true) (h_prune ++ [OGetSlot 7]) = true /\
+  refines sel_c10 false (init0 false) h_prune = true.
+Proof. vm_compute. repeat split; reflexivity. Qed.
